@@ -81,7 +81,20 @@ class ListView:
         return (self.hi - 1 - j) if self.rev else (self.lo + j)
 
 
+class SymIter:
+    """an iterator over a symbolic list (e.g. a token generator): consumed by iteration; always truthy"""
+
+    def __init__(self, base, cursor=None):
+        self.base = base
+        self.cursor = cursor if cursor is not None else z3.IntVal(0)
+
+    def remaining(self):
+        return ListView(self.base, self.cursor, self.base.length)
+
+
 def view_of(v):
+    if isinstance(v, SymIter):
+        return v.remaining()
     if isinstance(v, ListView):
         return v
     if isinstance(v, SymList):
